@@ -70,6 +70,12 @@ def pySlice {α} (l : List α) (start stop : Option Int) : List α :=
   let (lo, hi) := sliceBounds l.length start stop
   (l.drop lo).take (hi - lo)
 
+/-- CPython's adjustment of one slice bound (`PySlice_AdjustIndices`). -/
+def adjBound (n lower upper : Int) (b : Option Int) (dflt : Int) : Int :=
+  match b with
+  | .none => dflt
+  | .some b => if b < 0 then max (b + n) lower else min b upper
+
 /-- `slice(start, stop, step).indices(n)` for any non-zero step, as the list of selected
 positions (CPython semantics, both signs of step). -/
 def sliceIndices (n : Nat) (start stop step : Option Int) : Except Err (List Nat) :=
@@ -78,12 +84,8 @@ def sliceIndices (n : Nat) (start stop step : Option Int) : Except Err (List Nat
   let nI : Int := n
   let lower : Int := if st > 0 then 0 else -1
   let upper : Int := if st > 0 then nI else nI - 1
-  let adj (b : Option Int) (dflt : Int) : Int :=
-    match b with
-    | .none => dflt
-    | .some b => if b < 0 then max (b + nI) lower else min b upper
-  let s := adj start (if st > 0 then lower else upper)
-  let e := adj stop (if st > 0 then upper else lower)
+  let s := adjBound nI lower upper start (if st > 0 then lower else upper)
+  let e := adjBound nI lower upper stop (if st > 0 then upper else lower)
   let count : Nat :=
     if st > 0 then (if s < e then ((e - s - 1) / st + 1).toNat else 0)
     else (if e < s then ((s - e - 1) / (-st) + 1).toNat else 0)
